@@ -10,8 +10,10 @@ plan = uberjob.Plan()
 a, b = plan.lit(1), plan.lit(2)
 plan.add_dependency(a, b)
 plan.add_dependency(b, a)
+c = plan.call(int, 3)
+plan.add_dependency(b, c)   # the output depends on the cycle, so the run has to examine it
 try:
-    print("run returned", uberjob.run(plan, output=b, progress=None), "- cycle not reported")
+    print("run returned", uberjob.run(plan, output=c, progress=None), "- cycle not reported")
     sys.exit(3)
 except nx.HasACycle as e:
     print("cycle reported:", e)
